@@ -181,10 +181,24 @@ class VariableElimination(Inference):
             # Each factor is listed once per variable in its scope: keep one entry per
             # factor object (not per value, equal factors are different factors).
             all_factors = list({id(factor): factor for factor in all_factors}.values())
+            # The evidence applies here as well: reduce every factor to it.
+            if evidence:
+                all_factors = [
+                    factor.reduce(
+                        [
+                            (var, state)
+                            for var, state in evidence.items()
+                            if var in factor.scope()
+                        ],
+                        inplace=False,
+                    )
+                    for factor in all_factors
+                ]
             if joint:
                 return factor_product(*all_factors)
             else:
-                return set(all_factors)
+                # A list, not a set: equal factors are different factors.
+                return all_factors
 
         # Step 2: Prepare data structures to run the algorithm.
         eliminated_variables = set()
@@ -1222,7 +1236,7 @@ class BeliefPropagation(Inference):
 
         # TODO:Check the note in docstring. Change that behavior to return the joint MAP
         if not variables:
-            variables = list(self.model.nodes())
+            variables = [var for var in self.model.nodes() if var not in evidence]
 
         # Make a copy of the original model and then replace self.model with it later.
         orig_model = self.model.copy()
